@@ -1328,6 +1328,15 @@ theorem delete_emits_payloadValid (S : Schema) (hdet : detB S = true) (hleaf : P
   | addNodeMark _ _ => simp [Step.sliceOf] at hs
   | removeNodeMark _ _ => simp [Step.sliceOf] at hs
 
+/-- … and so has the step `Transform.delete_range` records -/
+theorem deleteRange_emits_payloadValid (S : Schema) (hdet : detB S = true) (hleaf : PM.FromDom.leafOkB S = true)
+    (doc : Node) (f t : Nat) (hv : C01.Valid S doc) (hattrs : S.nodeAttrsOK doc = true) (st : Step)
+    (h : deleteRangeStep S doc f t = .ok (some st)) : C01.PayloadValid S doc st := by
+  unfold deleteRangeStep at h
+  split at h
+  · simp [throw, throwThe, MonadExceptOf.throw] at h
+  · exact delete_emits_payloadValid S hdet hleaf doc _ _ hv hattrs st h
+
 /-- the statement is not vacuous: deleting `[3, 8)` of `doc(blockquote(p("ab")), p("cd"))` — from inside the quoted
     paragraph to inside the second one — is answered with a replace-around step that moves `"d"` behind `"a"`
     (`insert = 0`, gap `[8, 9)`, slice `<blockquote(p())>(2,0)`) -/
